@@ -3,6 +3,8 @@ import MosnVerif.Lemmas.UpdatesRm
 import MosnVerif.Lemmas.UpdatesMode
 import MosnVerif.Lemmas.DumpScript
 import MosnVerif.Lemmas.RouterLocksConc
+import MosnVerif.Lemmas.ResourceUpd
+import MosnVerif.Lemmas.DirHist
 /-!
 # C12 — runtime updates are coherent and reproducible from the dumped config (property theorems only)
 
@@ -759,5 +761,136 @@ example : Inv exOracle stA ∧ stA.wrappers "r" = some wA ∧
     (∀ t, named "r" ((fun t => if t = 0 then MOp.addRoute "a.b" (rt "y") else MOp.update cfgB) t)) :=
   ⟨inv_run _ _, by decide, fun t => by by_cases h : t = 0 <;> simp [h, named, cfgB]⟩
 end lockWitness
+
+/-! ## resource thresholds of an updated cluster (circuit breakers): thresholds follow the latest configuration, counters survive
+
+`ResourceUpd.Op` = cluster updates through either mutator (any cluster type, any `circuit_breakers` list: absent, empty, several
+entries, zero thresholds), host updates, removal, `Increase` / `Decrease` of any resource by requests in flight.
+`updateResourceValue` and `UpdateClusterResourceManagerHandler` are regenerated (`Gen.ResourceUpd`). -/
+section resources
+open MosnVerif.Model MosnVerif.Gen.ResourceUpd
+
+/-- **thresholds_follow_latest_config**: after EVERY history the live thresholds (all four, zero = unlimited included) are those
+of a fresh cluster built from the dumped configuration — present on both sides or on neither —, and right after a cluster update
+(whatever came before: other limits, requests in flight, removals) they are exactly the thresholds of that update's
+configuration: the first `circuit_breakers` entry, the defaults (0) without one. -/
+theorem thresholds_follow_latest_config (ops : List ResourceUpd.Op) :
+    ResourceUpd.liveMax (ResourceUpd.run ops) = ResourceUpd.rebuilt (ResourceUpd.run ops) ∧
+    ∀ via cfg, ResourceUpd.liveMax (ResourceUpd.run (ops ++ [.update via cfg])) = some (ResourceUpd.newRM cfg.cb) ∧
+      ResourceUpd.rebuilt (ResourceUpd.run (ops ++ [.update via cfg])) = some (ResourceUpd.newRM cfg.cb) := by
+  refine ⟨ResourceUpd.inv_runFrom _ ops ResourceUpd.inv_init, fun via cfg => ?_⟩
+  simp [ResourceUpd.run, ResourceUpd.runFrom_append, ResourceUpd.runFrom, ResourceUpd.step, ResourceUpd.liveMax,
+    ResourceUpd.rebuilt, ResourceUpd.handler_max]
+
+/-- **counters_survive_update**: from every state (reachable or not) with a live cluster, an update through either mutator that
+keeps the cluster type leaves all four `current` counters exactly as they were (the old manager object is handed over), while the
+thresholds become the new ones. -/
+theorem counters_survive_update (s : ResourceUpd.State) (l : ResourceUpd.Live) (via : ResourceUpd.Via) (cfg : ResourceUpd.Cfg)
+    (hl : s.live = some l) (ht : l.typ = cfg.typ) :
+    ResourceUpd.liveCur (ResourceUpd.step s (.update via cfg)) = some l.rm.cur ∧
+    ResourceUpd.liveMax (ResourceUpd.step s (.update via cfg)) = some (ResourceUpd.newRM cfg.cb) := by
+  simp [ResourceUpd.step, ResourceUpd.liveCur, ResourceUpd.liveMax, hl, ResourceUpd.handler_cur _ _ _ ht, ResourceUpd.handler_max]
+
+/-- the model's step-by-step observation of every history satisfies the driver's predicate `ResourceUpd.Spec.holds` -/
+theorem spec_rsrc_holds_on_model (ops : List ResourceUpd.Op) :
+    ResourceUpd.Spec.holds ops (ResourceUpd.trace ResourceUpd.init ops) = true :=
+  ResourceUpd.holdsFrom_model ResourceUpd.init ops ResourceUpd.inv_init
+
+/-- **skip_zero_keeps_old_limit** (negation witness, machine-checked): with `updateResourceValue` skipping zero thresholds
+("do not lift the limits of a busy cluster") an update that drops `max_connections` (5 → absent) leaves 5 in force on the live
+manager while the configuration — and a fresh start from its dump — has no limit; the regenerated function stores the 0. -/
+theorem skip_zero_keeps_old_limit :
+    ResourceUpd.updateSkipZero ⟨5, 0, 7, 0⟩ (ResourceUpd.newRM []) = ⟨5, 0, 7, 0⟩ ∧
+    ResourceUpd.updateSkipZero ⟨5, 0, 7, 0⟩ (ResourceUpd.newRM []) ≠ ResourceUpd.newRM [] ∧
+    updateResourceValue ⟨5, 0, 7, 0⟩ (ResourceUpd.newRM []) = ResourceUpd.newRM [] := by decide
+
+-- non-vacuity: a history with limits set, requests in flight, limits dropped and set again, removal and re-creation
+def rhist : List ResourceUpd.Op :=
+  [.update .primary ⟨0, [⟨5, 0, 7, 1⟩]⟩, .setHosts true, .incr .conn, .incr .req, .incr .pend, .update (.andHost true) ⟨0, []⟩,
+   .decr .conn, .update .primary ⟨0, [⟨0, 3, 0, 0⟩, ⟨9, 9, 9, 9⟩]⟩, .update .primary ⟨1, [⟨2, 2, 2, 2⟩]⟩, .remove,
+   .update .primary ⟨0, []⟩]
+example : (ResourceUpd.run (rhist.take 6)).live.map (·.rm) = some ⟨⟨0, 0, 0, 0⟩, ⟨1, 0, 1, 0⟩⟩ := by decide
+example : (ResourceUpd.run (rhist.take 8)).live.map (·.rm) = some ⟨⟨0, 3, 0, 0⟩, ⟨1, 0, 1, 0⟩⟩ := by decide
+example : (ResourceUpd.run (rhist.take 9)).live.map (·.rm) = some ⟨⟨2, 2, 2, 2⟩, ⟨0, 0, 0, 0⟩⟩ := by decide
+example : (ResourceUpd.run (rhist.take 10)).live = none ∧ (ResourceUpd.run rhist).live.map (·.rm.max) = some ⟨0, 0, 0, 0⟩ := by decide
+-- counters_survive_update's hypotheses
+example : ∃ l, (ResourceUpd.run (rhist.take 5)).live = some l ∧ l.typ = (⟨0, []⟩ : ResourceUpd.Cfg).typ ∧ l.rm.cur = ⟨1, 0, 1, 0⟩ :=
+  ⟨_, rfl, rfl, by decide⟩
+-- the predicate is not trivially true: the skip-zero outcome of `rhist.take 6` is rejected
+example : ResourceUpd.Spec.stepOk (some (⟨⟨5, 0, 7, 1⟩, ⟨1, 1, 1, 0⟩⟩, 0)) (.update (.andHost true) ⟨0, []⟩)
+    ⟨.ok, some ⟨⟨5, 0, 7, 1⟩, ⟨1, 1, 1, 0⟩⟩, some ⟨⟨5, 0, 7, 1⟩, ⟨1, 1, 1, 0⟩⟩, some ⟨0, 0, 0, 0⟩⟩ = false := by decide
+end resources
+
+/-! ## removals survive a reload in directory mode (`clusters_configs` / `router_configs`)
+
+The directory scan of `MarshalJSON` that writes the current items is also what deletes the files of removed ones; its top-level
+statements are regenerated (`Gen.DirDump`), the item loop's file-name operations are `Gen.ConfigDir`'s. -/
+section dirHistories
+open MosnVerif.Model MosnVerif.Model.ConfigDir MosnVerif.Gen.DirDump
+
+/-- **dir_dump_discipline**: both regenerated statement lists scan the directory, collect its files, write every item, clean up and
+return — with no `return` between the scan and the cleanup (whatever the item list is, empty included). -/
+theorem dir_dump_discipline :
+    DirHist.stepsOK clusterDumpSteps = true ∧ DirHist.stepsOK vhostDumpSteps = true := by decide
+
+/-- **removal_survives_reload**: for EVERY non-empty history of updates of the item list (add / replace by name, remove — down to
+the empty list and back —, complete replacement), each followed by a dump into the SAME directory at any time, every directory
+content at the start (stale files, operator files) and every initial item list: every dump succeeds and the loader applied to the
+directory returns exactly the CURRENT items (as one marshal cycle leaves them; a permutation, `ReadDir` sorts by file name) — so an
+item removed by the history is not loaded again, and after a history that ends with no item the directory loads as empty.  Stated
+for any statement list with the discipline and any file-name operations that are `opsOK`; quantifying over all histories covers
+every prefix (`reload (dump state_n) = state_n` for every n). -/
+theorem removal_survives_reload {α : Type} (steps : List DStep) (hsteps : DirHist.stepsOK steps = true)
+    (ops : List DirTypes.NameOp) (hops : opsOK ops Gen.ConfigDir.readExt = true)
+    (enc : α → Json) (dcd : Json → Option α) (nrm : α → α) (hcodec : ∀ c, dcd (enc c) = some (nrm c)) (nameOf : α → Bytes)
+    (ups : List (DirHist.Upd α × (Nat → Bytes))) (hne : ups ≠ []) (hclocks : ∀ u ∈ ups, ClockOK u.2) (d : Dir) (items : List α) :
+    ∃ d' l, DirHist.histDump steps ops enc nameOf d items ups = some d' ∧
+      unmarshalDynamic dcd Gen.ConfigDir.readExt d' = some l ∧ l.Perm ((DirHist.histItems nameOf items ups).map nrm) ∧
+      (DirHist.histItems nameOf items ups = [] → l = []) := by
+  obtain ⟨d', l, h1, h2, h3⟩ := DirHist.hist_reload steps hsteps ops _ hops enc dcd nrm hcodec nameOf ups hne hclocks d items
+  exact ⟨d', l, h1, h2, h3, fun h => by rw [h] at h3; exact List.Perm.eq_nil (by simpa using h3)⟩
+
+/-- … for the regenerated clusters (`clusters_configs`) and virtual hosts (`router_configs`) dumps -/
+theorem removal_survives_reload_regenerated {α : Type} (enc : α → Json) (dcd : Json → Option α) (nrm : α → α)
+    (hcodec : ∀ c, dcd (enc c) = some (nrm c)) (nameOf : α → Bytes)
+    (ups : List (DirHist.Upd α × (Nat → Bytes))) (hne : ups ≠ []) (hclocks : ∀ u ∈ ups, ClockOK u.2) (d : Dir) (items : List α) :
+    (∃ d' l, DirHist.histDump clusterDumpSteps Gen.ConfigDir.clusterNameOps enc nameOf d items ups = some d' ∧
+      unmarshalDynamic dcd Gen.ConfigDir.readExt d' = some l ∧ l.Perm ((DirHist.histItems nameOf items ups).map nrm) ∧
+      (DirHist.histItems nameOf items ups = [] → l = [])) ∧
+    (∃ d' l, DirHist.histDump vhostDumpSteps Gen.ConfigDir.vhostNameOps enc nameOf d items ups = some d' ∧
+      unmarshalDynamic dcd Gen.ConfigDir.readExt d' = some l ∧ l.Perm ((DirHist.histItems nameOf items ups).map nrm) ∧
+      (DirHist.histItems nameOf items ups = [] → l = [])) :=
+  ⟨removal_survives_reload _ dir_dump_discipline.1 _ (by decide +kernel) enc dcd nrm hcodec nameOf ups hne hclocks d items,
+   removal_survives_reload _ dir_dump_discipline.2 _ (by decide +kernel) enc dcd nrm hcodec nameOf ups hne hclocks d items⟩
+
+/-- the statement list of the seeded shape: `if len(items) == 0 { return … }` right after the directory was read -/
+def earlyReturnSteps : List DStep :=
+  [.mkdir, .readDir, .returnIfEmpty, .collectInit, .collect, .writtenInit, .writeLoop, .cleanup, .finish]
+
+/-- `c1` as bytes; `c1.json` -/
+def c1Item : DirHist.Item := ⟨"c1", 1⟩
+def c1Name : Bytes := [99, 49]
+
+/-- **early_return_keeps_removed_cluster** (negation witness, machine-checked): with a `return` for an empty item list before the
+cleanup the statement list has not the discipline, and the history "add cluster c1; remove it" (a dump after each step) leaves
+`c1.json` in the directory: the loader returns c1 although no item is left.  The regenerated list empties the directory. -/
+theorem early_return_keeps_removed_cluster :
+    DirHist.stepsOK earlyReturnSteps = false ∧
+    (let ups : List (DirHist.Upd DirHist.Item × (Nat → Bytes)) := [(.put c1Item, fun i => dec i), (.del c1Name, fun i => dec i)]
+     DirHist.histItems (fun _ => c1Name) [] ups = [] ∧
+     ((DirHist.histDump earlyReturnSteps Gen.ConfigDir.clusterNameOps DirHist.Item.enc (fun _ => c1Name) [] [] ups).bind
+        (unmarshalDynamic DirHist.Item.dcd Gen.ConfigDir.readExt)) = some [c1Item] ∧
+     ((DirHist.histDump clusterDumpSteps Gen.ConfigDir.clusterNameOps DirHist.Item.enc (fun _ => c1Name) [] [] ups).bind
+        (unmarshalDynamic DirHist.Item.dcd Gen.ConfigDir.readExt)) = some []) := by decide +kernel
+
+-- non-vacuity of removal_survives_reload's hypotheses: a clock showing digits, a codec, a history down to empty and back
+example : ClockOK (fun i => dec i) := by
+  intro i
+  exact ⟨free_dec 0 (by decide) i, free_dec 47 (by decide) i⟩
+example (c : DirHist.Item) : DirHist.Item.dcd (DirHist.Item.enc c) = some c := DirHist.item_codec c
+example : DirHist.histItems (fun _ : DirHist.Item => c1Name) []
+    [(.put c1Item, fun i => dec i), (.del c1Name, fun i => dec i), (.setAll [c1Item, c1Item], fun i => dec i)] = [c1Item, c1Item] := by
+  decide +kernel
+end dirHistories
 
 end MosnVerif.Props.C12
